@@ -44,7 +44,9 @@ def qualifying_indexes(pr: kruns.Prepared):
                         ok = False
         if ok:
             out.append(i)
-    return out
+    # an index forced to share its size with a non-qualifying index (same dimension of a repeated
+    # tensor) cannot be scaled alone: keep it only if its whole size class qualifies
+    return [i for i in out if index_class(a, i) <= set(out)]
 
 
 def index_class(a, i):
@@ -68,6 +70,9 @@ def run(chk: Check, drv: Driver):
     )
     quick = chk.tier == "quick"
     rng = chk.rng
+    from .. import graphcorr
+
+    graphcorr.run(chk, drv, 2000 if quick else 20000)
     found = []
     for pr in kruns.enumerate_problems(chk, n_random=(80 if quick else 800), per_assignment=(12 if quick else 40)):
         if pr.problem is None:
